@@ -11,6 +11,7 @@
 #include <etl/vector.hpp>
 
 #include <algorithm>
+#include <unistd.h>
 #include <memory>
 #include <new>
 #include <stack>
@@ -707,6 +708,9 @@ static std::unique_ptr<Runner> g_runner;
 
 static auto step(Line const& l) -> std::string
 {
+    // watchdog: a single operation that runs away (e.g. a loop whose bound no longer matches a truncated
+    // size) ends the process; check.py reports the line as a crash instead of hanging
+    alarm(5);
     if (l.op == "new" || l.op == "api_bits" || l.op == "api_assign") {
         auto ty   = l.str("ty");
         auto cap  = static_cast<std::size_t>(l.i("cap"));
